@@ -8,7 +8,8 @@ EXPLANATION = ("E7 state-reset dataflow: the set W of MinidumpWriter fields writ
                "MinidumpWriter::dump is computed from MIR stores/&mut borrows; for every field in W each use in dump "
                "(direct, or through a callee that transitively touches the field) must be preceded on every path from "
                "the entry of dump by a kill (fresh assignment or clear()). Plus: no mutable/interior-mutable static or "
-               "thread-local is reachable from dump, and buffer/dumper/soft-error list are locals of dump.")
+               "thread-local is reachable from dump, and buffer/dumper/soft-error list are locals of dump. (config-preserved) fields stored by "
+               "the public setters are never stored to or mutably borrowed by anything reachable from dump.")
 TRUSTED = ["call graph over resolved callees (trait calls on generic parameters are treated by item name)"]
 ASSUMPTIONS = ["configuration fields (written only by the public setters) are intentionally persistent",
                "equivalence of the k-th dump with a fresh writer's dump on a changed target is not computed; the rule shows nothing recorded earlier can be read later"]
@@ -229,6 +230,42 @@ def rule_fresh_locals(ctx):
               "thread-local state reachable from dump(): %s" % tl[:3], nontrivial=False)
 
 
+def rule_config_preserved(ctx):
+    """configuration fields — those the public setters (functions not reachable from dump) store to — must survive a dump unchanged:
+    anything reachable from dump that stores to one, or takes it by &mut (Option::take, mem::take, push, clear ...), makes the next
+    dump run with a different configuration than the caller set"""
+    R = "C19/config-preserved"
+    prog = ctx.prog
+    direct, trans = touched_fields(prog)
+    reach = prog.reachable([DUMP])
+    config = {}
+    for fn, d in direct.items():
+        if fn in reach or not fn.startswith(MW + "::"):
+            continue
+        for fld, kinds in d.items():
+            if kinds & {"write", "partialwrite", "mutborrow"}:
+                config.setdefault(fld, set()).add(fn.split("::")[-1])
+    ctx.analysed["configuration_fields"] = {k: sorted(v) for k, v in sorted(config.items())}
+    ctx.floor(R, "configuration fields (stored by setters outside dump)", len(config), 6)
+    for fld in sorted(config):
+        writers = []
+        for fn in sorted(reach):
+            for body in prog.by_short.get(fn, ()):
+                for bi, si, f, kind in field_accesses(body):
+                    if f == fld and kind in ("write", "partialwrite", "mutborrow"):
+                        how = kind
+                        if kind == "mutborrow":
+                            t = body.term(bi)
+                            if t["k"] == "call":
+                                how = "&mut handed to %s" % (CalleeView(t["callee"]).short or "?").split("::")[-1]
+                        writers.append("%s (%s) @ %s" % (fn.split("::")[-1], how, body.where(bi, si)))
+        ctx.check(not writers, R, ("field", fld), None,
+                  "MinidumpWriter.%s (set by %s) is only read during a dump" % (fld, ", ".join(sorted(config[fld]))),
+                  "MinidumpWriter.%s is configuration (set by %s) but a dump modifies it: %s — the next dump from the same writer no longer runs with what the caller configured"
+                  % (fld, ", ".join(sorted(config[fld])), "; ".join(writers)[:300]))
+
+
 def run(ctx):
     rule_stale_field(ctx)
+    rule_config_preserved(ctx)
     rule_fresh_locals(ctx)
